@@ -127,39 +127,140 @@ func ruleI12(c *Ctx) {
 			if small == nil || small.Referrers() == nil {
 				return
 			}
-			for _, u := range *small.Referrers() {
-				var at *ssa.BasicBlock
-				switch x := u.(type) {
-				case *ssa.BinOp:
-					at = x.Block()
-				case *ssa.UnOp:
-					at = x.Block()
-				case *ssa.Convert:
-					at = x.Block()
-				case *ssa.Call:
-					at = x.Block()
-				case *ssa.Phi:
-					// the value flows on: judged where the phi is used (conservatively: at the phi's block)
-					at = x.Block()
-				default:
-					continue
+			// bigNilAt: is the big arm of this value known to be nil at block b?
+			bigNilAt := func(b *ssa.BasicBlock) bool {
+				if big == nil {
+					return false
 				}
-				n++
-				ord++
-				key := fmt.Sprintf("%s: use of a small arm #%d", fnName(fn), ord)
-				guarded := false
-				if big != nil {
-					isNil, _ := knownNilness(at, func(v ssa.Value) bool { return v == ssa.Value(big) })
-					guarded = isNil
+				if isNil, _ := knownNilness(b, func(v ssa.Value) bool { return v == ssa.Value(big) }); isNil {
+					return true
 				}
-				// inside the accessor's own family (bigInt(), Sign(), ...) the small arm is used on the
-				// branch where the big arm was found nil in the same way; otherwise:
-				if guarded {
-					c.ok(key, c.P.Pos(u.Pos()), "dominated by the test that the big arm of the same value is nil")
-				} else {
-					c.viol(key, c.P.Pos(u.Pos()), "the small arm of an Int is used without a dominating test that its big arm is nil: for a big Int the small arm is 0, so the operation silently computes with 0 instead of the number")
+				// a predicate helper over the big arms: if anyBig(xBig, yBig) { ...big path... }
+				for _, pc := range pathConds(b) {
+					cond, neg := stripNot(pc.If.Cond)
+					pcall, ok := cond.(*ssa.Call)
+					if !ok {
+						continue
+					}
+					g := pcall.Call.StaticCallee()
+					if g == nil || g.Blocks == nil || relPkg(fnPkgPath(g)) != "starlark" {
+						continue
+					}
+					idx := -1
+					for i, a := range pcall.Call.Args {
+						if a == ssa.Value(big) {
+							idx = i
+						}
+					}
+					if idx < 0 {
+						continue
+					}
+					taken := pc.Branch != neg
+					// evaluate the predicate with our arm non-nil and the others nil or non-nil: if it always
+					// answers `taken`'s opposite, then on this edge our arm is nil
+					always := true
+					for mask := 0; mask < 1<<uint(len(pcall.Call.Args)) && always; mask++ {
+						if mask&(1<<uint(idx)) == 0 {
+							continue // our arm non-nil in every evaluated case
+						}
+						var args []sval
+						for i := range pcall.Call.Args {
+							if mask&(1<<uint(i)) != 0 {
+								args = append(args, svInt(1)) // non-nil
+							} else {
+								args = append(args, sval{k: 'n'})
+							}
+						}
+						r, ok := sinterpFunc(g, args...)
+						if !ok || r.k != 'b' || r.b == taken {
+							always = false
+						}
+					}
+					if always && len(pcall.Call.Args) <= 4 {
+						return true
+					}
+				}
+				return false
+			}
+			var judge func(v ssa.Value, depth int)
+			judge = func(v ssa.Value, depth int) {
+				if depth > 3 || v.Referrers() == nil {
+					return
+				}
+				for _, u := range *v.Referrers() {
+					switch x := u.(type) {
+					case *ssa.Convert:
+						judge(x, depth+1) // a conversion alone computes nothing: its uses are judged
+						continue
+					case *ssa.ChangeType:
+						judge(x, depth+1)
+						continue
+					case *ssa.DebugRef, *ssa.Return, *ssa.Store:
+						continue
+					case *ssa.Phi:
+						// judged per incoming edge: the edge that carries the small arm must be one on which
+						// the big arm is nil
+						okAll := true
+						for i, e := range x.Edges {
+							if e != v {
+								continue
+							}
+							pred := x.Block().Preds[i]
+							if bigNilAt(pred) {
+								continue
+							}
+							edgeOK := false
+							if len(pred.Instrs) > 0 {
+								if ifi, ok := pred.Instrs[len(pred.Instrs)-1].(*ssa.If); ok {
+									if t, neq, ok := nilTest(firstCond(ifi)); ok && big != nil && t == ssa.Value(big) {
+										_, neg := stripNot(ifi.Cond)
+										nonNilOnTrue := neq != neg
+										// the phi block is the successor on which big is nil?
+										if nonNilOnTrue && pred.Succs[1] == x.Block() {
+											edgeOK = true
+										}
+										if !nonNilOnTrue && pred.Succs[0] == x.Block() {
+											edgeOK = true
+										}
+									}
+								}
+							}
+							if !edgeOK {
+								okAll = false
+							}
+						}
+						n++
+						ord++
+						key := fmt.Sprintf("%s: use of a small arm #%d", fnName(fn), ord)
+						if okAll {
+							c.ok(key, c.P.Pos(x.Pos()), "merged only along edges on which the big arm is nil")
+						} else {
+							c.viol(key, c.P.Pos(x.Pos()), "the small arm of an Int flows on along an edge on which its big arm may be non-nil: for a big Int the small arm is 0")
+						}
+						continue
+					}
+					var at *ssa.BasicBlock
+					switch x := u.(type) {
+					case *ssa.BinOp:
+						at = x.Block()
+					case *ssa.UnOp:
+						at = x.Block()
+					case *ssa.Call:
+						at = x.Block()
+					default:
+						continue
+					}
+					n++
+					ord++
+					key := fmt.Sprintf("%s: use of a small arm #%d", fnName(fn), ord)
+					if bigNilAt(at) {
+						c.ok(key, c.P.Pos(u.Pos()), "dominated by the test that the big arm of the same value is nil")
+					} else {
+						c.viol(key, c.P.Pos(u.Pos()), "the small arm of an Int is used without a dominating test that its big arm is nil: for a big Int the small arm is 0, so the operation silently computes with 0 instead of the number")
+					}
 				}
 			}
+			judge(small, 0)
 		})
 	}
 	if n < 10 {
@@ -546,3 +647,104 @@ var o15Exceptions = map[string]string{
 }
 
 var _ = token.ADD
+
+// ---------- X1: a mutator's refusal is never dropped ----------
+
+func init() {
+	register("X1", "a refused mutation is reported: wherever the error result of a collection mutator (hashtable.insert/addAll/delete/clear, Dict.SetKey/Delete/Clear, Set.Insert/Delete/Clear, List.Append/SetIndex/Clear, ...) is discarded, the object was created in the same function or a successful checkMutable on it dominates the call, so the only refusals that can be lost are impossible ones; dropping the check while keeping the 'cannot fail' discard makes `d |= e` during iteration silently do nothing", 5, ruleX1)
+	claim("C06", "X1")
+	claim("C04", "X1")
+}
+
+func ruleX1(c *Ctx) {
+	isMutator := func(cal *ssa.Function) bool {
+		if cal == nil || cal.Signature.Recv() == nil || relPkg(fnPkgPath(cal)) != "starlark" {
+			return false
+		}
+		res := cal.Signature.Results()
+		if res.Len() == 0 || res.At(res.Len()-1).Type().String() != "error" {
+			return false
+		}
+		_, tn := namedOf(cal.Signature.Recv().Type())
+		switch tn {
+		case "hashtable", "Dict", "Set", "List":
+		default:
+			return false
+		}
+		switch cal.Name() {
+		case "insert", "addAll", "delete", "clear", "SetKey", "Delete", "Clear", "Insert", "Append", "SetIndex", "InsertAll":
+			return true
+		}
+		return false
+	}
+	fc := computeReturnsFresh(c.P)
+	n := 0
+	for _, fn := range c.P.Funcs {
+		if !isProdPkg(fnPkgPath(fn)) {
+			continue
+		}
+		ord := map[string]int{}
+		eachInstr(fn, func(in ssa.Instruction) {
+			call, ok := in.(*ssa.Call)
+			if !ok || !isMutator(call.Call.StaticCallee()) {
+				return
+			}
+			cal := call.Call.StaticCallee()
+			// is the error result used?
+			used := false
+			res := cal.Signature.Results()
+			if refs := call.Referrers(); refs != nil {
+				for _, r := range *refs {
+					switch x := r.(type) {
+					case *ssa.DebugRef:
+					case *ssa.Extract:
+						if x.Index == res.Len()-1 && x.Referrers() != nil && len(*x.Referrers()) > 0 {
+							used = true
+						}
+					default:
+						if res.Len() == 1 {
+							used = true
+						}
+					}
+				}
+			}
+			if used {
+				return
+			}
+			n++
+			kb := fmt.Sprintf("%s: discarded error of %s", fnName(fn), cal.Name())
+			ord[kb]++
+			key := kb
+			if ord[kb] > 1 {
+				key = fmt.Sprintf("%s #%d", kb, ord[kb])
+			}
+			recv := call.Call.Args[0]
+			bases := resolveBases(fn, traceAddr(recv).bases)
+			var nf []base
+			for _, b := range bases {
+				if b.throughPtr || !isFreshValue(fc, b.v) {
+					nf = append(nf, b)
+				}
+			}
+			switch {
+			case len(bases) > 0 && len(nf) == 0:
+				c.ok(key, c.P.Pos(call.Pos()), "the collection was created in this function: it is neither frozen nor being iterated")
+			case findCheckMutableGuard(fn, call, nf) != "":
+				c.ok(key, c.P.Pos(call.Pos()), "a successful checkMutable on the same object dominates the call")
+			default:
+				if why, ok := helperJustified(c.P, fc, outermost(fn), nf, 0); ok {
+					c.ok(key, c.P.Pos(call.Pos()), why)
+					return
+				}
+				if methodIs(outermost(fn), "starlark", "hashtable", "grow") {
+					c.ok(key, c.P.Pos(call.Pos()), "re-insertion into the table being rebuilt (the keys were hashable and the table mutable when they were first inserted)")
+					return
+				}
+				c.viol(key, c.P.Pos(call.Pos()), fmt.Sprintf("the error of %s is discarded although nothing here shows that the collection is mutable (not fresh, no dominating successful checkMutable): a refused mutation - frozen, or during iteration - passes silently and the statement has no effect", cal.Name()))
+			}
+		})
+	}
+	if n < 5 {
+		c.anchorFail("only %d discarded mutator errors found", n)
+	}
+}
